@@ -4,7 +4,8 @@
     A fixed point object is (left, right, raw); its value is raw * 2^right.  [wf k x] says
     that the width is >= 1 and raw lies in the range of the underlying Signed / Unsigned
     vector.  All theorems quantify over ALL formats and raw values (unbounded [Z]).
-    They are theorems about the model; the model is tied to /repo by harness/c19.py. *)
+    They are theorems about the model (Models/Fixed.v mirrors the tree that contains the C19 fix
+    commits); the model is tied to /repo by harness/c19.py. *)
 From Coq Require Import ZArith List Bool Lia.
 From Cohdl Require Import Models.Fixed Models.FixedProofs.
 Import ListNotations.
@@ -73,6 +74,16 @@ Theorem C19_eq_number_refuted : exists k x m e,
 Proof. exists SFixed, (0, 0, 0), (-1), (-1). repeat split; cbv; congruence. Qed.
 Print Assumptions C19_eq_number_refuted.
 
+(** with seeded/_proposed_fixes/C19_eq_fix.diff (NOT in /repo; model [eq_num_eqfix]) the answer
+    is numeric for every number inside the format's range, representable or not *)
+Theorem C19_eq_number_after_eq_fix : forall k l r raw m e,
+  1 <= l - r + 1 ->
+  let s := Z.min e r in
+  min_raw k (l - r + 1) * p2 (r - s) <= m * p2 (e - s) <= max_raw k (l - r + 1) * p2 (r - s) ->
+  eq_num_eqfix k (l, r, raw) m e = Ok (m * p2 (e - s) =? raw * p2 (r - s)).
+Proof. exact eq_num_eqfix_numeric. Qed.
+Print Assumptions C19_eq_number_after_eq_fix.
+
 (** constructors: a number that is a value of the format is preserved (int / float as exact m*2^e) *)
 Theorem C19_ctor_preserves : forall k l r m e q,
   1 <= l - r + 1 -> num_is m e r q -> min_raw k (l - r + 1) <= q <= max_raw k (l - r + 1) ->
@@ -92,89 +103,57 @@ Theorem C19_ctor_unsigned_preserves : forall k l r w val,
 Proof. intros k; destruct k; [exact ctor_vec_unsigned_S | exact ctor_vec_unsigned_U]. Qed.
 Print Assumptions C19_ctor_unsigned_preserves.
 
-(** from a Signed vector: the full statement is FALSE of the code; the constructor never succeeds
-    ([_qualifier_(raw_type, x)] calls Value with two arguments) *)
-Theorem C19_ctor_signed_refuted : forall l r w val x, ctor_vec SFixed l r true w val <> Ok x.
-Proof. exact ctor_vec_signed_never_ok. Qed.
-Print Assumptions C19_ctor_signed_refuted.
+(** from a Signed vector whose type fits the format *)
+Theorem C19_ctor_signed_preserves : forall l r w val,
+  1 <= l - r + 1 -> r <= 0 -> 1 <= w -> w - r <= l - r + 1 -> - p2 (w - 1) <= val < p2 (w - 1) ->
+  ctor_vec SFixed l r true w val = Ok (l, r, val * p2 (- r)).
+Proof. exact ctor_vec_signed_S. Qed.
+Print Assumptions C19_ctor_signed_preserves.
 
-(** from another format: PARTIAL - proved for an equal right bound and left >= source left;
-    excluded: a smaller right bound, where the code computes [zeros] with the wrong sign ... *)
-Theorem C19_ctor_format_partial : forall k l r sl raw,
-  wf k (sl, r, raw) -> sl <= l -> ctor_fix k l r (sl, r, raw) = Ok (l, r, raw).
-Proof. exact ctor_fix_same_right. Qed.
-Print Assumptions C19_ctor_format_partial.
+(** from an object of a contained format (left >= source left, right <= source right; the
+    code rejects every other pair of formats by two explicit assertions) *)
+Theorem C19_ctor_format_preserves : forall k l r sl sr raw,
+  wf k (sl, sr, raw) -> sl <= l -> r <= sr ->
+  ctor_fix k l r (sl, sr, raw) = Ok (l, r, raw * p2 (sr - r)).
+Proof. exact ctor_fix_contained. Qed.
+Print Assumptions C19_ctor_format_preserves.
 
-(** ... and there the constructor never succeeds although every value is representable *)
-Theorem C19_ctor_format_refuted : forall k l r sl sr raw x, r < sr -> ctor_fix k l r (sl, sr, raw) <> Ok x.
-Proof. exact ctor_fix_smaller_right_never_ok. Qed.
-Print Assumptions C19_ctor_format_refuted.
-
-(** resize = round (floor | nearest even) then overflow (wrap | saturate).
-    PARTIAL: holds exactly on [resize_guard] (Models/FixedProofs.v), which excludes
-      - selfleft <= left, selfright < right, right - selfright >= width        (raises)
-      - selfleft  = left, ROUND, SATURATE, the rounded value exceeds the maximum (wraps)
-      - SFixed: ROUND to a 1 bit target with selfright < right                  (raises)
-      - SFixed: SATURATE from a 1 bit source into a lower left bound            (raises)
-      - SFixed: SATURATE, selfleft - left >= width, raw = -1                    (gives 0)
-      - SFixed: SATURATE, ROUND, selfleft > left, selfright < right, floor = -1 (gives max)
-      - UFixed: SATURATE, selfleft - left > width                               (raises) *)
-Theorem C19_resize_spec_partial : forall k x l r rs os,
-  wf k x -> 1 <= l - r + 1 -> resize_guard k x l r rs os = true ->
+(** resize = round (floor | nearest even) then overflow (wrap | saturate): for EVERY well
+    formed object, every target format [l:r] with l >= r, both round styles, both overflow
+    styles.  The only guard is the one the code itself rejects:
+      - 1 <= l - r + 1 : [SFixed[left:right]] / [UFixed[left:right]] assert left >= right
+        (see C19_resize_rejects_malformed_target). *)
+Theorem C19_resize_spec : forall k x l r rs os,
+  wf k x -> 1 <= l - r + 1 ->
   resize k x l r rs os = Ok (spec_resize k x l r rs os).
-Proof. exact resize_spec_guarded. Qed.
-Print Assumptions C19_resize_spec_partial.
+Proof. exact resize_spec_full. Qed.
+Print Assumptions C19_resize_spec.
 
-Example C19_resize_spec_nonvacuous :
-  resize_guard SFixed (3, -2, -19) 1 0 Round Saturate = true /\
-  resize_guard UFixed (3, -2, 45) 1 0 Round Saturate = true /\
-  resize_guard SFixed (1, -2, -7) 3 (-1) Round Wrap = true /\
-  resize_guard SFixed (3, -1, 15) 3 0 Round Saturate = false.
-Proof. exact guard_nonvacuous. Qed.
-Print Assumptions C19_resize_spec_nonvacuous.
+Theorem C19_resize_rejects_malformed_target : forall k sl sr raw l r rs os,
+  1 <= sl - sr + 1 -> l - r + 1 < 1 -> resize k (sl, sr, raw) l r rs os = Err EAssert.
+Proof. exact resize_rejects_malformed. Qed.
+Print Assumptions C19_resize_rejects_malformed_target.
 
-(** the guard is exact (guard = true  <->  model = spec) for every well formed source, target
-    format and style with -3 <= right <= left <= 3: 110656 inputs, by computation *)
-Theorem C19_resize_guard_exact_on_box : guard_exact_on_box (-3) 3 = true.
-Proof. exact guard_exact_box_3. Qed.
-Print Assumptions C19_resize_guard_exact_on_box.
-
-(** the unguarded statement is FALSE of the faithful model *)
-Theorem C19_resize_spec_refuted : exists k x l r rs os,
-  wf k x /\ 1 <= l - r + 1 /\ resize k x l r rs os <> Ok (spec_resize k x l r rs os).
-Proof. exact resize_spec_refuted. Qed.
-Print Assumptions C19_resize_spec_refuted.
-
-(** one witness per excluded class *)
-Theorem C19_resize_round_carry_refuted :
-  departs SFixed (3, -1, 15) 3 0 Round Saturate /\ departs UFixed (2, -1, 15) 2 0 Round Saturate.
-Proof. exact (conj refuted_round_carry_S refuted_round_carry_U). Qed.
-Print Assumptions C19_resize_round_carry_refuted.
-
-Theorem C19_resize_cutoff_ge_width_refuted :
-  departs SFixed (1, 0, 1) 5 3 Round Wrap /\ departs UFixed (1, 0, 1) 5 3 Truncate Wrap.
-Proof. exact refuted_cutoff_ge_width. Qed.
-Print Assumptions C19_resize_cutoff_ge_width_refuted.
-
-Theorem C19_resize_round_target_width_1_refuted : departs SFixed (0, -1, 0) 0 0 Round Wrap.
-Proof. exact refuted_round_target_width_1. Qed.
-Print Assumptions C19_resize_round_target_width_1_refuted.
-
-Theorem C19_resize_saturate_source_width_1_refuted : departs SFixed (0, 0, 0) (-1) (-1) Truncate Saturate.
-Proof. exact refuted_saturate_source_width_1. Qed.
-Print Assumptions C19_resize_saturate_source_width_1_refuted.
-
-Theorem C19_resize_saturate_overflow_gt_width_refuted : departs UFixed (0, 0, 0) (-2) (-2) Truncate Saturate.
-Proof. exact refuted_saturate_overflow_gt_width. Qed.
-Print Assumptions C19_resize_saturate_overflow_gt_width_refuted.
-
-Theorem C19_resize_saturate_minus_one_refuted : departs SFixed (1, 0, -1) (-1) (-1) Truncate Saturate.
-Proof. exact refuted_saturate_minus_one. Qed.
-Print Assumptions C19_resize_saturate_minus_one_refuted.
-
-Theorem C19_resize_saturate_round_negative_refuted : departs SFixed (1, -2, -1) 0 (-1) Round Saturate.
-Proof. exact refuted_saturate_round_negative. Qed.
-Print Assumptions C19_resize_saturate_round_negative_refuted.
+(** regressions (also in the harness corpus): the inputs on which the tree before the C19 fix
+    commits departed from the spec (rounding carry, source below the target LSB, 1 bit target,
+    1 bit source, overflow >= width, negative all-ones, SFixed(Signed), T(other format),
+    integers above 2^53) now give the spec value *)
+Example C19_regressions :
+  resize SFixed (3, -1, 15) 3 0 Round Saturate = Ok (3, 0, 7) /\
+  resize UFixed (2, -1, 15) 2 0 Round Saturate = Ok (2, 0, 7) /\
+  resize SFixed (1, 0, 1) 5 3 Round Wrap = Ok (5, 3, 0) /\
+  resize UFixed (1, 0, 1) 5 3 Truncate Wrap = Ok (5, 3, 0) /\
+  resize SFixed (0, -1, 0) 0 0 Round Wrap = Ok (0, 0, 0) /\
+  resize SFixed (0, 0, 0) (-1) (-1) Truncate Saturate = Ok (-1, -1, 0) /\
+  resize UFixed (0, 0, 0) (-2) (-2) Truncate Saturate = Ok (-2, -2, 0) /\
+  resize SFixed (1, 0, -1) (-1) (-1) Truncate Saturate = Ok (-1, -1, -1) /\
+  resize SFixed (1, -2, -1) 0 (-1) Round Saturate = Ok (0, -1, 0) /\
+  ctor_vec SFixed 3 (-1) true 3 (-2) = Ok (3, -1, -4) /\
+  ctor_fix SFixed 4 (-2) (3, -1, -5) = Ok (4, -2, -10) /\
+  ctor_fix UFixed 4 (-2) (3, -1, 5) = Ok (4, -2, 10) /\
+  ctor_num SFixed 60 0 (2 ^ 59 + 1) 0 = Ok (60, 0, 2 ^ 59 + 1).
+Proof. exact regressions. Qed.
+Print Assumptions C19_regressions.
 
 (** the SPEC itself says what the property says *)
 Theorem C19_spec_truncate_is_floor : forall sr r raw, sr < r ->
